@@ -309,6 +309,12 @@ shared_ptr<IDataArray> BlockHDF5::createDataArray(const std::string &name,
                                                   nix::DataType data_type,
                                                   const NDSize &shape,
                                                   const Compression &compression) {
+    // reject what createData would reject (unsupported element type, rank 0)
+    // before the array group is created: nothing must be left behind
+    data_type_to_h5_filetype(data_type);
+    if (shape.size() == 0) {
+        throw InvalidRank("Cannot create a DataArray of rank 0");
+    }
     string id = util::createId();
     boost::optional<H5Group> g = data_array_group(true);
 
